@@ -104,7 +104,7 @@ func renderSRT(r *rng, cues []srtCue, canon bool) []byte {
 			case 0:
 				idx = "" // absent
 			case 1:
-				idx = []string{"abc", "x1", "12a", "#"}[r.intn(4)] // garbage
+				idx = []string{"abc", "x1", "12a", "#", "99999999999999999999x", "18446744073709551615x", "-18446744073709551616."}[r.intn(7)] // garbage
 			case 2:
 				idx = fmt.Sprint(r.intn(1000))
 			}
